@@ -139,10 +139,22 @@ func ringCheck() string {
 	return out
 }
 
+// In concurrent mode (C17) equal argument tokens of the ops of ONE barrier round denote ONE shared object: the
+// property allows "shared inputs that are only read", so a library call that writes its argument even transiently
+// (and restores it) must show up as a race report, a wrong result or !ARGMUT.  The cache is reset per round.
+var sharedArgs sync.Map
+
+func resetSharedArgs() { sharedArgs = sync.Map{} }
+
 func (a *argTrack) Int(tok string) *big.Int {
 	v, ok := new(big.Int).SetString(tok, 10)
 	if !ok {
 		panic("harness: bad int token " + tok)
+	}
+	if concurrentMode {
+		if o, _ := sharedArgs.LoadOrStore("i"+tok, v); o != nil {
+			v = o.(*big.Int)
+		}
 	}
 	a.ints = append(a.ints, v)
 	a.intS = append(a.intS, v.String())
@@ -160,6 +172,11 @@ func (a *argTrack) Bytes(tok string) []byte {
 	// keep spare capacity poisoned so that an append into the caller's slice would be visible
 	buf := make([]byte, len(b), len(b)+8)
 	copy(buf, b)
+	if concurrentMode {
+		if o, _ := sharedArgs.LoadOrStore("b"+tok, buf); o != nil {
+			buf = o.([]byte)
+		}
+	}
 	a.bytes = append(a.bytes, buf)
 	a.byteS = append(a.byteS, string(b))
 	return buf
@@ -841,14 +858,25 @@ func dispatch(op, pat string, args []string, a *argTrack) string {
 		msg := a.Int(args[2])
 		var sig, sig2 *babyjub.Signature
 		var err error
+		// between the two signing calls the caller obtains the public key and uses it as a destination (it is the
+		// caller's object): signing must not depend on memory handed out earlier
+		useKey := func() {
+			if !concurrentMode {
+				pk := k.Public()
+				pk.X.SetInt64(0xBAD)
+				pk.Y.SetInt64(0xBAD)
+			}
+		}
 		if args[0] == "poseidon" {
 			sig, err = k.SignPoseidon(msg)
 			if err == nil {
+				useKey()
 				sig2, _ = k.SignPoseidon(msg)
 			}
 		} else if args[0] == "mimc7" {
 			sig, err = k.SignMimc7(msg)
 			if err == nil {
+				useKey()
 				sig2, _ = k.SignMimc7(msg)
 			}
 		} else {
